@@ -159,6 +159,12 @@ func init() {
 			// template names longer than a small-string buffer, in a key list with missing entries
 			"scale-long-names": {"a/rather/long/path-like/template/name/with/more/than/thirty-two/bytes.tpl", `<li>{%= user.Id %}</li>`, "main",
 				`{% include a/rather/long/path-like/template/name/with/more/than/thirty-two/bytes.tpl %}{% . no/such/template/under/this/long/path/either/anywhere.tpl a/rather/long/path-like/template/name/with/more/than/thirty-two/bytes.tpl %}`},
+			// helper / modifier / global names longer than a small-string buffer (namespaced registrations)
+			"scale-long-registry-names": {"main", `{% if vnamespace_longer_than_thirty_two_bytes::helperWithAnEquallyLongName(user.Id) %}Y{% endif %}{% switch %}{% case vnamespace_longer_than_thirty_two_bytes::helperWithAnEquallyLongName(user.Id) %}C{% endswitch %}` +
+				`{%= user.Id|vnamespace_longer_than_thirty_two_bytes::modifierWithAnEquallyLongName() %}{%= nope|default(vnamespace_longer_than_thirty_two_bytes::globalWithAnEquallyLongName) %}` +
+				`{% for i := 0; i < 3; i++ %}{% break if vnamespace_longer_than_thirty_two_bytes::helperWithAnEquallyLongName() %}{% endfor %}`},
+			// ctx tags whose source ends with a numeric modifier (the result lives in the context's scratch cells)
+			"scale-ctx-numeric": {"main", `{% ctx r = user.Finance.Balance|ceilPrec(2) %}{%= r %}{% ctx q = user.Cost|round %}{%= q %}{% for i := 0; i < 3; i++ %}{% ctx nx = i|math::add(1) %}{%= nx %}{% ctx fl = user.Cost|floorPrec(1) %}{% endfor %}{% ctx ab = user.Status|math::abs() %}{%= ab %}`},
 			// includes (also nested) executed while bound tags are open, and bound tags opened inside the included template
 			"scale-include-in-region": {"subr", `<b>{%= user.Id %}</b>{% jsonquote %}"q"{% endjsonquote %}`, "main",
 				`{% htmlescape %}{% include subr %}{% jsonquote %}{% include subr %}{% urlencode %}{% . subr %}{% endurlencode %}{% endjsonquote %}{% for i:=0; i<3; i++ %}{% include subr %}{% endfor %}{% endhtmlescape %}`},
